@@ -562,3 +562,97 @@ def check_null_guards(ctx, F, rule="E-FFI.null"):
                                 "%s is reached only when the pointer IS null (the test is inverted)" %
                                 ", ".join(sorted({(cfg.callee_name(blocks[i]["t"]) or "").rsplit("::", 1)[-1] for i in bad}))))
     return n
+
+
+def check_status_results(ctx, F, rule="E-FFI.status"):
+    """C functions that report success as a `bool` after `handle_err_or_init(result, error)`: the constant `false` is
+    returned only on the `None` (error) side of the match on that call's result and the constant `true` only on the `Some`
+    side; `handle_err_or_init` itself maps `Ok(v)` to `Some(v)` (writing error_t::NONE) and `Err(e)` to `None`."""
+    from lib import hirutil as H
+    n = 0
+    for fid, m in sorted(F.mir.items()):
+        if not fid.startswith("oxidd_ffi_c::") or m["locals"][0].get("ty") != "bool":
+            continue
+        B = cfg.Body(m)
+        blocks = m["blocks"]
+        calls = [(i, t) for i, t in B.calls() if (cfg.callee_name(t) or "").endswith("::handle_err_or_init") and not blocks[i]["c"]]
+        consts = []
+        for i in sorted(B.reach):
+            if blocks[i]["c"]:
+                continue
+            for s in blocks[i]["s"]:
+                if s.get("lhs") == 0 and (s.get("rv") or {}).get("k") == "use" and cfg.const_int(s["rv"]["op"]) is not None:
+                    consts.append((i, cfg.const_int(s["rv"]["op"])))
+        if not calls or not consts:
+            continue
+        for ci, t in calls:
+            d = t.get("d")
+            sw = None
+            for j in sorted(B.reach):
+                b = blocks[j]
+                if b["t"]["k"] == "switch" and any(s.get("rv", {}).get("k") == "discr" and s["rv"].get("p") == d and
+                                                   s.get("lhs") == cfg.op_place(b["t"]["d"]) for s in b["s"]):
+                    sw = j
+            if sw is None:
+                continue
+            n += 1
+            tt = blocks[sw]["t"]
+            some = [blk for v, blk in tt["t"] if int(v) == 1]
+            none = [blk for v, blk in tt["t"] if int(v) == 0]
+            some_side = some[0] if some else tt["o"]
+            none_side = none[0] if none else tt["o"]
+            r_some = B.reachable_from(some_side, avoid=(sw,))
+            r_none = B.reachable_from(none_side, avoid=(sw,))
+            bad = [(i, c) for i, c in consts if (c == 0 and i in r_some and i not in r_none) or (c == 1 and i in r_none and i not in r_some)]
+            ctx.ob(rule, "%s:%s" % (rule, F.nice(fid)), not bad and some_side != none_side,
+                   "%s (%s): %s" % (F.nice(fid), F.where(fid), "false on the error side, true on the success side of handle_err_or_init" if not bad else
+                                    "the constant %s is returned on the %s side of handle_err_or_init: the C caller is told the opposite of what happened"
+                                    % ("false" if bad[0][1] == 0 else "true", "success" if bad[0][1] == 0 else "error")))
+    hid = "oxidd_ffi_c::util::handle_err_or_init"
+    h = F.hir.get(hid)
+    if ctx.anchor(rule, hid, h is not None):
+        import tables
+        from lib.interp import Enum, Interp, Opaque, enumerate_runs
+        from tables import OK, ERR, SOME, NONE
+
+        class Ptr:
+            def __init__(self, null):
+                self.null, self.written = null, []
+
+        class D(tables.DDDomain):
+            def __init__(self):
+                super().__init__(F, tables.BDD)
+
+            def const(self, it, e):
+                if (e.get("n") or "").endswith("error_t::NONE"):
+                    return Opaque("error_t::NONE")
+                return super().const(it, e)
+
+            def method(self, it, m_, e, env):
+                name = m_.rsplit("::", 1)[-1]
+                recv = it.recv(e, env)
+                if isinstance(recv, Ptr):
+                    if name == "is_null":
+                        return recv.null
+                    if name == "write":
+                        recv.written.append(it.args(e, env)[0])
+                        return ()
+                if isinstance(recv, Enum) and name == "ok":
+                    return Enum(SOME, [recv.args[0]]) if recv.path == OK else Enum(NONE)
+                if isinstance(recv, Opaque) and name == "into":
+                    return Opaque("raw:" + recv.what)
+                return super().method(it, m_, e, env)
+        fails = []
+        for res, null in ((Enum(OK, [Opaque("v")]), True), (Enum(OK, [Opaque("v")]), False), (Enum(ERR, [Opaque("e")]), True), (Enum(ERR, [Opaque("e")]), False)):
+            tgt = Ptr(null)
+            for trace, (status, val) in enumerate_runs(lambda o: Interp(F, D(), o), lambda it: it.call_fn(hid, [res, tgt])):
+                n += 1
+                want = Enum(SOME, [res.args[0]]) if res.path == OK else Enum(NONE)
+                if status != "ok" or val != want:
+                    fails.append("%s with a %s error target yields %s %r, expected %r" % (res.path.rsplit("::", 1)[-1], "null" if null else "valid", status, val, want))
+                wrote = [getattr(w, "what", w) for w in tgt.written]
+                if wrote != ([] if null else ["error_t::NONE"] if res.path == OK else ["raw:e"]):
+                    fails.append("%s with a %s error target writes %r" % (res.path.rsplit("::", 1)[-1], "null" if null else "valid", wrote))
+        ctx.ob(rule, rule + ":handle_err_or_init", not fails, "handle_err_or_init (%s): %s" % (F.where(hid), " || ".join(fails[:2]) if fails else
+               "Ok -> Some (error_t::NONE written), Err -> None (the error written), nothing written through a null target"))
+    return n
